@@ -9,6 +9,7 @@ pub mod cfgrammar;
 pub mod c08;
 pub mod c09;
 pub mod c10;
+pub mod c11;
 pub mod c12;
 pub mod c13;
 pub mod c14;
@@ -36,6 +37,7 @@ pub fn run(prop: &str, tier: Tier, replay: Option<Value>) -> ! {
         "C08" => c08::run(tier, replay),
         "C09" => c09::run(tier, replay),
         "C10" => c10::run(tier, replay),
+        "C11" => c11::run(tier, replay),
         "C12" => c12::run(tier, replay),
         "C13" => c13::run(tier, replay),
         "C14" => c14::run(tier, replay),
